@@ -55,6 +55,9 @@ func payload(c uint64) []byte {
 		return []byte{byte(c)}
 	}
 	size := seqSizes[int(c%uint64(len(seqSizes)))]
+	if c >= 1_000_000_000_000 {
+		size = int(c - 1_000_000_000_000) // explicit size: content number 10^12 + size
+	}
 	b := make([]byte, size)
 	binary.LittleEndian.PutUint64(b, c)
 	x := c*0x9e3779b97f4a7c15 + 1
@@ -77,6 +80,9 @@ func contentOf(b []byte) string {
 		return fmt.Sprintf("v:corrupt(%d)", len(b))
 	}
 	c := binary.LittleEndian.Uint64(b)
+	if c >= 1_000_000_000_000 && c-1_000_000_000_000 != uint64(len(b)) {
+		return fmt.Sprintf("v:corrupt(%d)", len(b))
+	}
 	if c >= 256 && bytes.Equal(payload(c), b) {
 		return "v:" + strconv.FormatUint(c, 10)
 	}
@@ -193,6 +199,9 @@ func (r *shortReader) Read(p []byte) (int, error) {
 	}
 	copy(p, r.b[:n])
 	r.b = r.b[n:]
+	if len(r.b) == 0 && r.rng.p(50) {
+		return n, io.EOF // io.Reader: the last bytes may come together with io.EOF
+	}
 	return n, nil
 }
 
@@ -296,14 +305,23 @@ func (im *seqImpl) exec(f []string, rng *seqRng) (res string) {
 			if err != nil {
 				return canonErr(err)
 			}
+			scratch := make([]byte, 0, 4096)
 			for len(data) > 0 {
 				n := 1 + rng.n(len(data))
 				if rng.p(20) {
 					n = len(data)
 				}
-				if _, err = w.Write(data[:n]); err != nil {
+				if rng.p(8) {
+					n = 0 // an empty write
+				}
+				// the caller's buffer is reused for every Write (io.Writer must not retain it)
+				scratch = append(scratch[:0], data[:n]...)
+				if _, err = w.Write(scratch); err != nil {
 					w.Close()
 					return canonErr(err)
+				}
+				for j := range scratch {
+					scratch[j] = 0xEE
 				}
 				data = data[n:]
 			}
